@@ -23,10 +23,13 @@ import (
 )
 
 type result struct {
-	H1    *obs      `json:"h1,omitempty"`
-	H2    *h2obs    `json:"h2,omitempty"`
-	Retry *retryObs `json:"retry,omitempty"`
-	H3    *h3obs    `json:"h3,omitempty"`
+	H1    *obs       `json:"h1,omitempty"`
+	H2    *h2obs     `json:"h2,omitempty"`
+	Retry *retryObs  `json:"retry,omitempty"`
+	H3    *h3obs     `json:"h3,omitempty"`
+	Queue *queueObs  `json:"queue,omitempty"`
+	Win   *windowObs `json:"window,omitempty"`
+	Share *shareObs  `json:"share,omitempty"`
 }
 
 type job struct {
@@ -92,6 +95,9 @@ func allJobs() []job {
 	add("h2", len(h2specs))
 	add("retry", 1)
 	add("h3", len(h3specs))
+	add("queue", 2)
+	add("window", 1)
+	add("share", 2)
 	return js
 }
 
@@ -193,6 +199,66 @@ func runJob(j job, seed uint64, quick bool) (out []result) {
 			}
 			add(runH3(sp, "cancel", pos, true))
 		}
+	case "queue":
+		// every subset of the waiters is cancelled (the context kind alternates); idx 0: two waiters, 1: three
+		n := 2 + j.Idx
+		k := 0
+		for mask := 0; mask < 1<<n; mask++ {
+			var cs []int
+			for i := 0; i < n; i++ {
+				if mask&(1<<i) != 0 {
+					cs = append(cs, i)
+				}
+			}
+			if len(cs) > 1 && rng.Bool() { // the order of the cancellations varies
+				cs[0], cs[len(cs)-1] = cs[len(cs)-1], cs[0]
+			}
+			kind := []string{"cancel", "deadline"}[k%2]
+			k++
+			o := runQueue(queueSpec{Name: fmt.Sprintf("%d-waiters-cancel-%v", n, cs), Waiters: n, Cancel: cs, Kind: kind})
+			out = append(out, result{Queue: &o})
+		}
+		if n == 3 { // a waiter that joins after the cancellations
+			o := runQueue(queueSpec{Name: "3-waiters-cancel-[0]-late-2", Waiters: 3, Cancel: []int{0}, Kind: "cancel", Late: []int{2}})
+			out = append(out, result{Queue: &o})
+		}
+	case "window":
+		specs := []windowSpec{
+			{Name: "2x2x16000", Stray: [][]int{{16000, 16000}, {16000, 16000}}, Kind: "cancel"},
+			{Name: "3-small", Stray: [][]int{{1, 4095}, {4096}, {16384, 1}}, Kind: "deadline"},
+			{Name: "1x60000", Stray: [][]int{{16384, 16384, 16384, 10848}}, Kind: "cancel"},
+			{Name: "nothing-in-flight", Stray: [][]int{{}, {}}, Kind: "cancel"},
+		}
+		if !quick {
+			for i := 0; i < 8; i++ {
+				var st [][]int
+				total := 0
+				for d := 0; d < 1+rng.Intn(4); d++ {
+					var fr []int
+					for f := 0; f < rng.Intn(4); f++ {
+						n := hk.Pick(rng, []int{1, 100, 4095, 4096, 4097, 8192, 16000, 16384})
+						if total+n > 61000 {
+							break
+						}
+						total += n
+						fr = append(fr, n)
+					}
+					st = append(st, fr)
+				}
+				specs = append(specs, windowSpec{Name: fmt.Sprintf("random-%d", i), Stray: st, Kind: []string{"cancel", "deadline"}[i%2]})
+			}
+		}
+		for _, sp := range specs {
+			sp.Follow = 60000
+			o := runWindow(sp)
+			out = append(out, result{Win: &o})
+		}
+	case "share":
+		stack := []string{"h2", "h3"}[j.Idx]
+		for _, kind := range []string{"cancel", "deadline", "deadline-timer"} {
+			o := runShare(shareSpec{Name: stack + "-" + kind, Stack: stack, Kind: kind})
+			out = append(out, result{Share: &o})
+		}
 	case "retry":
 		for _, sp := range retrySpecs {
 			for _, kind := range []string{"cancel", "deadline"} {
@@ -248,7 +314,7 @@ func main() {
 
 func runC08(r *hk.Run) {
 	log.SetOutput(io.Discard)
-	r.Header = "From Coq Require Import List.\nImport ListNotations.\nFrom ReqV Require Import Model.C08Run."
+	r.Header = "From Coq Require Import List ZArith.\nImport ListNotations.\nFrom ReqV Require Import Model.C08Run."
 	r.CaseType = "c08_case"
 	r.CheckFn = "c08_check"
 	r.ShardSize = 40
@@ -343,6 +409,12 @@ func runC08(r *hk.Run) {
 				recordRetry(r, *x.Retry)
 			case x.H3 != nil:
 				recordH3(r, *x.H3)
+			case x.Queue != nil:
+				recordQueue(r, *x.Queue)
+			case x.Win != nil:
+				recordWindow(r, *x.Win)
+			case x.Share != nil:
+				recordShare(r, *x.Share)
 			}
 		}
 	}
